@@ -124,6 +124,18 @@ def run_hypothesis(sub, tier, n, seed, rec, shrink):
             rec.exclusion.add(f["outcome"].get("bucket", "?"))
         except hypothesis.errors.Unsatisfiable:
             break
+        except hypothesis.errors.Flaky:
+            # Hypothesis re-executes a failing example before reporting it and found a different outcome. A violation must be
+            # replayable, so the case is re-evaluated directly: it counts only if it fails again in the same bucket.
+            f = rec.last_failure
+            again = [call_oracle(sub, f["case"]) for _ in range(2)] if f else []
+            if f and all(o.get("status") == "fail" and o.get("bucket") == f["outcome"].get("bucket") for o in again):
+                rec.failures.append(f)
+                rec.exclusion.add(f["outcome"].get("bucket", "?"))
+            else:
+                rec.inconclusive["nonreproducible_outcome"] = rec.inconclusive.get("nonreproducible_outcome", 0) + 1
+                if f:
+                    rec.samples.append({"case": f["case"], "status": "nonreproducible", "info": {"first_outcome": f["outcome"].get("msg")}})
         used = rec.evaluations - before
         remaining -= max(used, 1)
         rnd += 1
